@@ -1,7 +1,8 @@
 #!/bin/bash
 # Build the Lean side from files on disk only (no network): models, proofs, property
 # theorems (every RV/Props/*.lean) and all native drivers whose root file exists.
-set -e
+# A target that fails to build here is reported but does not abort the setup: the check
+# that needs it rebuilds it and reports the failure under its own property.
 cd "$(dirname "$0")/lean"
 props=$(ls RV/Props/*.lean 2>/dev/null | sed 's/\.lean$//; s#/#.#g')
 exes=""
@@ -11,4 +12,8 @@ for e in $(grep -A2 '^\[\[lean_exe\]\]' lakefile.toml | grep '^name' | sed 's/.*
   [ -f "$f" ] && exes="$exes $e"
 done
 echo "building: $props $exes"
-lake build RV $props $exes
+if ! lake build RV $props $exes; then
+  echo "setup: some targets failed; building the rest one by one"
+  for t in RV $props $exes; do lake build $t > /dev/null 2>&1 || echo "setup: target $t FAILED"; done
+fi
+exit 0
